@@ -185,7 +185,8 @@ def worker(cfg, tier):
             if vi == "unknown":
                 v = "unknown"
         o = Ob(f"{interp}: d(newest entry)/d(alpha) == -(max-min) * finite-difference slope of the bracketing messages, strictly inside a segment", v, s, cfg,
-               key="interp-grad", what="gradient of the interpolated value w.r.t. the delay parameter is not minus the signal's slope", queries=len(conj), optional=heavy)
+               key="interp-grad", what="gradient of the interpolated value w.r.t. the delay parameter is not minus the signal's slope", queries=len(conj),
+               optional=heavy or float(dmin) != 0.0)  # with a non-zero minimal delay the non-linear gradient query is erratic as well: required for min = 0, attempted otherwise
         if v == "sat":
             o.replayed = _replay_grad(cfg)
         obs.append(o)
